@@ -29,9 +29,11 @@ type zipkinDecoderV2 struct {
 	parentId    string
 	name        string
 	serviceName string
-	payload     []byte
-	key         []string
-	val         []string
+	// remoteEndpoint's service name: used when the span has no local one
+	remoteServiceName string
+	payload           []byte
+	key               []string
+	val               []string
 }
 
 func (z *zipkinDecoderV2) SetOnEntry(h onSpanHandler) {
@@ -63,6 +65,7 @@ func (z *zipkinDecoderV2) reset() {
 	z.parentId = ""
 	z.name = ""
 	z.serviceName = ""
+	z.remoteServiceName = ""
 	z.payload = nil
 	z.key = z.key[:0]
 	z.val = z.val[:0]
@@ -125,9 +128,7 @@ func (z *zipkinDecoderV2) decodeSpan(rawSpan jx.Raw) error {
 			if err != nil {
 				return err
 			}
-			if z.serviceName != "" {
-				z.serviceName = serviceName
-			}
+			z.remoteServiceName = serviceName
 			return nil
 		case "tags":
 			err := z.parseTags(d)
@@ -139,6 +140,11 @@ func (z *zipkinDecoderV2) decodeSpan(rawSpan jx.Raw) error {
 	})
 	if err != nil {
 		return custom_errors.NewUnmarshalError(err)
+	}
+	// the local endpoint names the span's service whatever the order of the two fields; the
+	// remote one only stands in when there is no local name (as the trace read path does)
+	if z.serviceName == "" {
+		z.serviceName = z.remoteServiceName
 	}
 	z.key = append(z.key, "service.name")
 	z.val = append(z.val, z.serviceName)
